@@ -396,7 +396,13 @@ fn cli_roundtrip(bin: &std::path::Path, case: &Case, text: &str, c1: &Components
             t.count("cli_round_trips_compared");
         }
     } else {
-        t.count("cli_rejected_generated_case");
+        // the library evaluates this building with these options: a program that refuses to evaluate and save it
+        // (usage error, refusal, crash) cannot round-trip it
+        t.violation(
+            "C18.cli_cannot_save",
+            format!("the library evaluates the building but `cteepbd ... --oc --of` exits with {:?} (signal {:?}): {}", r1.code, r1.signal, r1.stderr.lines().next().unwrap_or("")),
+            || wit(json!({})),
+        );
     }
     let _ = std::fs::remove_dir_all(&dir);
 }
